@@ -32,10 +32,13 @@ pub struct Config {
     pub t_scale: f64,
     /// part of the quick tier
     pub core: bool,
+    /// temperatures at which the model's code may branch (numbers that appear in its parameter records, e.g. the
+    /// interpolation points of a tabulated permittivity): sampled exactly, with probability 1/4
+    pub special_t: Vec<f64>,
 }
 
 fn cfg(name: &str, model: ResidualModel, ncomp: usize, t_scale: f64, core: bool) -> Config {
-    Config { name: name.into(), model: Arc::new(model), ncomp, t_scale, core }
+    Config { name: name.into(), model: Arc::new(model), ncomp, t_scale, core, special_t: Vec::new() }
 }
 
 pub fn pcsaft_params(names: &[&str], file: &str, binary: Option<&str>) -> PcSaftParameters {
@@ -262,6 +265,20 @@ pub fn all(full: bool) -> Vec<Config> {
         400.0,
         true,
     ));
+    // literal association topologies no shipped record has: one self-associating C site; donor-only + acceptor-only
+    // (single A and single B site type on different components: the closed-form AB branch across components)
+    {
+        use feos::pcsaft::PcSaftRecord;
+        let rec = |m: f64, s: f64, e: f64, mu: Option<f64>, k: Option<f64>, eab: Option<f64>, na: f64, nb: f64, nc: f64, mw: f64| {
+            PureRecord::new(Identifier::default(), mw, PcSaftRecord::new(m, s, e, mu, None, k, eab, Some(na), Some(nb), Some(nc), None, None, None))
+        };
+        let propane = pcsaft_params(&["propane"], "gross2001.json", None).records().0[0].clone();
+        let acid = rec(1.3403, 3.8582, 211.59, None, Some(0.075550), Some(3044.4), 0.0, 0.0, 1.0, 60.05);
+        v.push(cfg("pcsaft_csite_propane", M::PcSaft(PcSaft::new(Arc::new(PcSaftParameters::from_records(vec![acid, propane], None).unwrap()))), 2, 450.0, true));
+        let donor = rec(2.5, 3.4, 270.0, Some(1.0), Some(0.02), Some(1500.0), 1.0, 0.0, 0.0, 119.4);
+        let acceptor = rec(2.8, 3.3, 250.0, Some(2.9), Some(0.03), Some(1700.0), 0.0, 1.0, 0.0, 58.1);
+        v.push(cfg("pcsaft_donor_acceptor", M::PcSaft(PcSaft::new(Arc::new(PcSaftParameters::from_records(vec![donor, acceptor], None).unwrap()))), 2, 500.0, true));
+    }
     // gc-PC-SAFT
     v.push(cfg("gcpcsaft_propane", M::GcPcSaft(gc_pcsaft(&["propane"])), 1, 370.0, true));
     v.push(cfg(
@@ -276,6 +293,13 @@ pub fn all(full: bool) -> Vec<Config> {
     v.push(cfg("pets2", M::Pets(pets(2)), 2, 180.0, true));
     // SAFT-VR Mie
     v.push(cfg("saftvrmie_ethane", M::SaftVRMie(saftvrmie(&["ethane"])), 1, 305.0, true));
+    v.push(cfg(
+        "saftvrmie_methanol_ethanol",
+        M::SaftVRMie(saftvrmie(&["methanol", "ethanol"])),
+        2,
+        500.0,
+        true,
+    ));
     v.push(cfg(
         "saftvrmie_ethane_butane",
         M::SaftVRMie(saftvrmie(&["ethane", "n-butane"])),
@@ -303,16 +327,53 @@ pub fn all(full: bool) -> Vec<Config> {
             40.0,
             false,
         ));
-        v.push(cfg("epcsaft_water", M::ElectrolytePcSaft(epcsaft(&["water"], false)), 1, 647.0, false));
-        v.push(cfg(
+        let special = epcsaft_special_temperatures();
+        let mut c1 = cfg("epcsaft_water", M::ElectrolytePcSaft(epcsaft(&["water"], false)), 1, 647.0, false);
+        c1.special_t = special.clone();
+        v.push(c1);
+        let mut c2 = cfg(
             "epcsaft_water_nacl",
             M::ElectrolytePcSaft(epcsaft(&["water", "sodium ion", "chloride ion"], true)),
             3,
             647.0,
             false,
-        ));
+        );
+        c2.special_t = special;
+        v.push(c2);
     }
     v
+}
+
+/// every number between 150 and 1500 that appears in the ePC-SAFT parameter file (tabulated permittivity temperatures, ...)
+pub fn epcsaft_special_temperatures() -> Vec<f64> {
+    fn walk(v: &serde_json::Value, out: &mut Vec<f64>) {
+        match v {
+            serde_json::Value::Number(n) => {
+                if let Some(x) = n.as_f64() {
+                    if (150.0..=1500.0).contains(&x) && !out.contains(&x) {
+                        out.push(x);
+                    }
+                }
+            }
+            serde_json::Value::Array(a) => a.iter().for_each(|x| walk(x, out)),
+            serde_json::Value::Object(o) => o.values().for_each(|x| walk(x, out)),
+            _ => {}
+        }
+    }
+    let mut out = Vec::new();
+    if let Ok(txt) = std::fs::read_to_string(format!("{}/epcsaft/held2014_w_permittivity_added.json", params())) {
+        if let Ok(v) = serde_json::from_str::<serde_json::Value>(&txt) {
+            if let Some(recs) = v.as_array() {
+                for r in recs {
+                    let name = r["identifier"]["name"].as_str().unwrap_or("");
+                    if ["water", "sodium ion", "chloride ion"].contains(&name) {
+                        walk(&r["model_record"], &mut out);
+                    }
+                }
+            }
+        }
+    }
+    out
 }
 
 /// simple deterministic PRNG (splitmix64) — every random choice of the harness derives from it
@@ -360,7 +421,10 @@ impl RState {
 /// composition in the open simplex, total amount in [0.5, 50]
 pub fn sample_state(c: &Config, rng: &mut Rng) -> RState {
     use feos_core::Residual;
-    let t = c.t_scale * rng.range(0.4, 3.0);
+    let mut t = c.t_scale * rng.range(0.4, 3.0);
+    if !c.special_t.is_empty() && rng.f64() < 0.25 {
+        t = c.special_t[rng.below(c.special_t.len())];
+    }
     let mut x: Vec<f64> = (0..c.ncomp).map(|_| rng.range(0.05, 1.0)).collect();
     let s: f64 = x.iter().sum();
     x.iter_mut().for_each(|xi| *xi /= s);
